@@ -6,10 +6,11 @@ import (
 	"fmt"
 	"github.com/rs/zerolog/log"
 	"net/http"
+	neturl "net/url"
 )
 
 func (p *PcClient) restartProcess(name string) error {
-	url := fmt.Sprintf("http://%s/process/restart/%s", p.address, name)
+	url := fmt.Sprintf("http://%s/process/restart/%s", p.address, neturl.PathEscape(name))
 	resp, err := p.client.Post(url, "application/json", nil)
 	if err != nil {
 		return err
